@@ -16,7 +16,7 @@ pub static DEF: PropDef = PropDef {
     id: "C08",
     level: "exploration",
     engine: "meta-cas",
-    rule: "one run = 2..4 nodes with real ObjectStoreMetadataClients issuing 4..9 lease operations each (acquire over overlapping 1..3-chunk sets, renew on time / late / never, complete, fail, scavenge) separated by drawn virtual pauses of 0..400 s, all on one shared virtual clock; every store request is a seeded scheduling point and the scheduler may let time pass between a request's GET and PUT (past the 300 s TTL); 2/3 of runs add request failures/delays; distinct = distinct (node, request kind, object class, fault, advance) decision sequence; non-trivial = completed AND (interleaved OR fault fired)",
+    rule: "four runs in five: 2..4 nodes with real ObjectStoreMetadataClients issuing 4..9 lease operations each (acquire over overlapping 1..3-chunk sets, renew on time / late / never, complete, fail, scavenge) separated by drawn virtual pauses of 0..400 s, all on one shared virtual clock; every store request is a seeded scheduling point and the scheduler may let time pass between a request's GET and PUT (past the 300 s TTL); 2/3 of runs add request failures/delays; distinct = distinct (node, request kind, object class, fault, advance) decision sequence; non-trivial = completed AND (interleaved OR fault fired); one run in five: the same operations on one shared in-memory LocalMetadataClient, interleaved at call granularity on the shared clock, with the per-call checks 'live leases disjoint', 'only non-live leases disappear', 'renewal of a reclaimed or finished lease is refused', and the final reclaimability check",
     quick_runs: 15000,
     thorough_runs: 150_000,
     run_cap_ms: 20_000,
@@ -81,8 +81,128 @@ struct Rec {
 
 const TTL: i64 = 300 * SEC;
 
+fn lm_of(c: CompactionLeases) -> LM {
+    c.leases
+        .into_iter()
+        .map(|(k, l)| {
+            (k, L { holder: l.holder_id, chunks: l.chunks, acquired: l.acquired_at.timestamp_nanos_opt().unwrap_or(0), expires: l.expires_at.timestamp_nanos_opt().unwrap_or(0), level: l.level, status: l.status })
+        })
+        .collect()
+}
+
+/// The in-memory backend: one shared client, lease calls of 2..4 nodes interleaved at call granularity with drawn
+/// pauses on the shared virtual clock. After every call: live leases pairwise disjoint; a renewal of a lease that is
+/// no longer in the table as an active lease must be refused; at the end everything is acquirable 301 s later.
+async fn local_variant() {
+    use cardinalsin::metadata::LocalMetadataClient;
+    let client: Arc<LocalMetadataClient> = Arc::new(LocalMetadataClient::new());
+    let nodes = sim::w_range(2, 4);
+    let nchunks = sim::w_range(2, 5);
+    sim::set_cfg(|c| {
+        c.adv_pct = 10;
+        c.ticks_ms = vec![100, 10_000, 150_000, 299_000, 301_000, 400_000];
+        c.max_virtual_ns = 24 * 3600 * 1_000_000_000;
+    });
+    sim::log(format!("CONFIG backend=in-memory nodes={nodes} chunks={nchunks}"));
+    let mut hs = Vec::new();
+    for n in 0..nodes {
+        let k = sim::w_range(4, 9);
+        let ops: Vec<(u32, u32, u32, u32, u64)> = (0..k)
+            .map(|_| (sim::w(8), sim::w(nchunks), sim::w_range(1, 3), sim::w(3), [0u64, 0, 1_000, 30_000, 119_000, 150_000, 280_000, 299_900, 300_000, 300_100, 400_000][sim::w(11) as usize]))
+            .collect();
+        let client = client.clone();
+        hs.push(tokio::spawn(async move {
+            let mut held: Option<String> = None;
+            let mut old: Option<String> = None;
+            for (kind, a, len, lvl, pause) in ops {
+                sim::yield_point(n, "before lease call").await;
+                let before = client.load_leases().await.map(lm_of).unwrap_or_default();
+                let now = sim::wall_ns();
+                let chunks: Vec<String> = (0..len).map(|i| format!("c{}", (a + i) % nchunks)).collect();
+                let what;
+                match (held.clone(), kind) {
+                    (None, 0..=5) | (Some(_), 7) => {
+                        what = format!("acquire {:?}", chunks);
+                        if let Ok(l) = client.acquire_lease(&format!("n{n}"), &chunks, lvl).await {
+                            if held.is_some() {
+                                old = held.clone();
+                            }
+                            held = Some(l.lease_id);
+                        }
+                    }
+                    (None, 6) | (Some(_), 0..=3) => {
+                        let id = match (held.clone(), old.clone()) {
+                            (Some(id), _) => id,
+                            (None, Some(id)) => id,
+                            _ => continue,
+                        };
+                        what = format!("renew {id}");
+                        // reclaimed = gone from the table (an acquire or a scavenge removed it after expiry) or terminal; an
+                        // expired lease that nobody has reclaimed yet may still be renewed (both backends allow that)
+                        let live_before = before.get(&id).map(|l| l.status == LeaseStatus::Active).unwrap_or(false);
+                        let r = client.renew_lease(&id).await;
+                        if r.is_ok() && !live_before {
+                            sim::violation("C08/renew-of-reclaimed-lease-accepted", format!("in-memory backend: renewal of {id} succeeded although the lease was {:?} before the call (now {now})", before.get(&id)));
+                        }
+                        if r.is_err() && held.as_ref() == Some(&id) {
+                            old = held.take();
+                        }
+                    }
+                    (Some(id), 4) => {
+                        what = format!("complete {id}");
+                        let _ = client.complete_lease(&id).await;
+                        old = held.take();
+                    }
+                    (Some(id), 5) => {
+                        what = format!("fail {id}");
+                        let _ = client.fail_lease(&id).await;
+                        old = held.take();
+                    }
+                    _ => {
+                        what = "scavenge".to_string();
+                        let _ = client.scavenge_leases().await;
+                    }
+                }
+                let after = client.load_leases().await.map(lm_of).unwrap_or_default();
+                sim::log(format!("n{n} {what}: {} leases after", after.len()));
+                if let Err(e) = live_disjoint(&after, sim::wall_ns()) {
+                    sim::violation("C08/two-live-leases-share-chunk", format!("in-memory backend, after n{n} {what}: {e}"));
+                }
+                // nothing but non-live leases may disappear, nothing that stays live may change hands
+                for (id, l) in &before {
+                    let was_live = l.status == LeaseStatus::Active && l.expires > now;
+                    match after.get(id) {
+                        None if was_live && !what.contains(id.as_str()) => sim::violation("C08/wrong-transition/live-lease-removed", format!("in-memory backend: live lease {id} of {} vanished during n{n} {what}", l.holder)),
+                        Some(a) if a.holder != l.holder || a.chunks != l.chunks => sim::violation("C08/wrong-transition/lease-changed-hands", format!("in-memory backend: lease {id} changed during n{n} {what}")),
+                        _ => {}
+                    }
+                }
+                if pause > 0 {
+                    tokio::time::sleep(Duration::from_millis(pause)).await;
+                }
+            }
+        }));
+    }
+    for h in hs {
+        let _ = h.await;
+    }
+    sim::faults_off();
+    tokio::time::sleep(Duration::from_secs(301)).await;
+    let all: Vec<String> = (0..nchunks).map(|i| format!("c{i}")).collect();
+    if let Err(e) = client.acquire_lease("late", &all, 0).await {
+        sim::violation("C08/expired-lease-not-reclaimable", format!("in-memory backend: 301 s after the last operation acquire of all chunks failed: {e}"));
+    }
+    sim::set_completed();
+    sim::set_nontrivial();
+}
+
 fn scen(_spec: RunSpec) -> ScenFut {
     Box::pin(async move {
+        // one run in five exercises the in-memory backend
+        if sim::w(5) == 4 {
+            local_variant().await;
+            return;
+        }
         let inner = Arc::new(InMemory::new());
         let nodes = sim::w_range(2, 4);
         let nchunks = sim::w_range(2, 5);
